@@ -1186,6 +1186,95 @@ def c12_sites(repo_root, tier):
         src = ast.unparse(fn)
         ok = "RE_PROPERTY.fullmatch(root)" in src and "[{root!r}]" in src
     _ob(obs, "liquid2.builtin.expressions:Path.__str__/site.root-quoting", ok, "a root segment that is not an identifier is printed in bracket-quote form")
+    # (d) logical expressions: operands are printed under their operator's own precedence, a lower-precedence operand and every
+    #     nested negation are parenthesised (the parser gives `not` everything to its right)
+    fn = em.find("BooleanExpression.__str__") if em else None
+    ok = False
+    if fn is not None:
+        inner = next((st for st in fn.body if isinstance(st, ast.FunctionDef)), None)
+        if inner is not None:
+            nm, pp = inner.name, inner.args.args[1].arg
+            src = ast.unparse(inner)
+            ok = (src.count(f"left = {nm}(expression.left, precedence)") == 2 and src.count(f"right = {nm}(expression.right, precedence)") == 2
+                  and "precedence = PRECEDENCE_LOGICAL_AND" in src and "precedence = PRECEDENCE_LOGICAL_OR" in src
+                  and f"if precedence < {pp}:\n        return f'({{expr}})'" in src
+                  and f"if {pp} > 0:\n            return f'({{expr}})'" in src
+                  and ast.unparse(fn.body[-1]) == f"return {nm}(self.expression, 0)")
+    _ob(obs, "liquid2.builtin.expressions:BooleanExpression.__str__/site.logical-parentheses", ok,
+        "and/or operands are printed under the operator's own precedence; lower-precedence operands and nested negations get parentheses")
+    # (d2) a field parsed with parse_string_or_identifier (a word *or* a quoted string) is printed through Identifier.as_source()
+    n_ident = 0
+    for key, tagcls, m in regs:
+        r = repo.resolve_name(m, tagcls)
+        if not r or r[0] != "class":
+            continue
+        tm, tc = r[1], r[2]
+        pfn = next((st for st in tc.body if isinstance(st, ast.FunctionDef) and st.name == "parse"), None)
+        if pfn is None:
+            continue
+        idents = set()
+        for n in ast.walk(pfn):
+            if isinstance(n, (ast.Assign, ast.AnnAssign)) and n.value is not None and any(isinstance(c, ast.Call) and ast.unparse(c.func) == "parse_string_or_identifier" for c in ast.walk(n.value)):
+                tgt = n.targets[0] if isinstance(n, ast.Assign) else n.target
+                if isinstance(tgt, ast.Name):
+                    idents.add(tgt.id)
+        if not idents:
+            continue
+        # which node fields receive them
+        for call in [c for c in ast.walk(pfn) if isinstance(c, ast.Call) and (ast.unparse(c.func) == "self.node_class" or ast.unparse(c.func).endswith("Node"))]:
+            ncname = None
+            if ast.unparse(call.func) == "self.node_class":
+                for st in tc.body:
+                    if isinstance(st, ast.Assign) and ast.unparse(st.targets[0]) == "node_class":
+                        ncname = ast.unparse(st.value)
+            else:
+                ncname = ast.unparse(call.func)
+            nr = repo.resolve_name(tm, ncname) if ncname else None
+            if not nr or nr[0] != "class":
+                continue
+            nc = nr[2]
+            init = next((st for st in nc.body if isinstance(st, ast.FunctionDef) and st.name == "__init__"), None)
+            sfn = next((st for st in nc.body if isinstance(st, ast.FunctionDef) and st.name == "__str__"), None)
+            if init is None or sfn is None:
+                continue
+            params = [a.arg for a in init.args.args[1:]]
+            passed = {}
+            for i, a in enumerate(call.args):
+                if isinstance(a, ast.Name) and a.id in idents and i < len(params):
+                    passed[params[i]] = a.id
+            for k in call.keywords:
+                if isinstance(k.value, ast.Name) and k.value.id in idents:
+                    passed[k.arg] = k.value.id
+            for pname in passed:
+                fld = None
+                for st in ast.walk(init):
+                    if isinstance(st, ast.Assign) and isinstance(st.value, ast.Name) and st.value.id == pname and isinstance(st.targets[0], ast.Attribute):
+                        fld = st.targets[0].attr
+                if fld is None:
+                    continue
+                n_ident += 1
+                bare = [ast.unparse(v.value) for v in ast.walk(sfn) if isinstance(v, ast.FormattedValue) and ast.unparse(v.value) == f"self.{fld}"]
+                quoted = [1 for v in ast.walk(sfn) if isinstance(v, ast.FormattedValue) and ast.unparse(v.value) == f"self.{fld}.as_source()"]
+                okq = not bare and bool(quoted)
+                _ob(obs, f"{nr[1].name}:{nc.name}.__str__/site.identifier-quoted.{fld}", okq,
+                    f"self.{fld} (a word or a quoted string in the source) is printed with as_source()" if okq else f"self.{fld} may have been written as a quoted string but is printed bare")
+    _ob(obs, "liquid2/site.identifier-fields.count", n_ident >= 8, f"{n_ident} identifier fields found")
+    fn = em.find("Identifier.as_source") if em else None
+    ok = fn is not None and "if is_token_type(self.token, TokenType.WORD):\n    return str(self)" in ast.unparse(fn).replace("\n        ", "\n    ")
+    _ob(obs, "liquid2.builtin.expressions:Identifier.as_source/site.bare-only-if-word", ok, "an identifier is printed bare only if it was lexed as a WORD token; otherwise quoted with backslash and quote escaped")
+    # (e) a branch tag is printed whenever the branch exists (its markers trim neighbouring text even when its block is empty)
+    for mn, cn in (("liquid2.builtin.tags.if_tag", "IfNode"), ("liquid2.builtin.tags.unless_tag", "UnlessNode"), ("liquid2.builtin.tags.case_tag", "CaseNode"), ("liquid2.builtin.tags.for_tag", "ForNode")):
+        m2 = repo.module(mn)
+        fn = m2.find(f"{cn}.__str__") if m2 else None
+        ok = fn is not None
+        tests = []
+        if fn is not None:
+            for n in ast.walk(fn):
+                if isinstance(n, (ast.If, ast.IfExp)) and "default" in ast.unparse(n.test):
+                    tests.append(ast.unparse(n.test))
+            ok = bool(tests) and all(t in ("self.default", "self.default is not None") for t in tests)
+        _ob(obs, f"{mn}:{cn}.__str__/site.else-printed-when-present", ok,
+            f"the else branch is printed exactly when it exists ({tests})" if ok else f"the else branch is printed under {tests}: an existing but empty branch would lose its tag and whitespace control")
     return {"obligations": obs, "samples": [{"obligation": o["oid"], "backend": "site", "note": o["note"]} for o in obs[:2]],
             "trusted": [], "functions": [],
             "assumptions": [],
